@@ -529,6 +529,10 @@ func (f *fsm) sendKeepAlive() error {
 }
 
 func (f *fsm) drainAndResetHoldTimer() {
+	if f.holdTime == 0 {
+		// the hold timer does not run when the negotiated hold time is zero
+		return
+	}
 	if !f.holdTimer.Stop() {
 		<-f.holdTimer.C
 	}
@@ -648,6 +652,20 @@ func (f *fsm) openSent() (fsmState, error) {
 					f.keepAliveInterval = f.holdTime / 3
 					f.keepAliveTimer = time.NewTimer(f.keepAliveInterval)
 					f.drainAndResetHoldTimer()
+				}
+				if f.holdTime == 0 {
+					// https://tools.ietf.org/html/rfc4271#section-4.2
+					// A negotiated Hold Time of zero disables the Hold and
+					// KeepAlive timers: the session never expires and no
+					// periodic KEEPALIVE messages are sent.
+					if !f.holdTimer.Stop() {
+						select {
+						case <-f.holdTimer.C:
+						default:
+						}
+					}
+					f.keepAliveTimer = time.NewTimer(longHoldTime)
+					f.keepAliveTimer.Stop()
 				}
 
 				return openConfirmState, nil
